@@ -98,23 +98,54 @@ func multiset(l []any) string {
 }
 
 func buildC11(tier string) *core.Plan {
-	n := 6
+	n, ns2 := 6, 3
 	if tier == "thorough" {
-		n = 7
+		n, ns2 = 7, 4
 	}
 	a := gen.Alphabet{Scalars: []any{1, true, false}, Keys: []string{"a", "b", "$output"}, MaxList: 3, MaxMap: 3}
 	trees := gen.Trees(a, n)
 	single := core.Space{Name: "single-documents", N: int64(len(trees)),
 		Desc: func(i int64) any { return trees[i] },
 		Run:  func(c *core.Ctx, i int64) { c11Check(c, "refSelect/refHide", []any{trees[i]}) }}
-	small := gen.Trees(a, 3)
+	small := gen.Trees(a, ns2)
 	ns := int64(len(small))
 	streams := core.Space{Name: "two-document-streams", N: ns * ns,
 		Desc: func(i int64) any { return []any{small[i/ns], small[i%ns]} },
 		Run:  func(c *core.Ctx, i int64) { c11Check(c, "refSelect/refHide-stream", []any{small[i/ns], small[i%ns]}) }}
+	lay := small
+	nl := int64(len(lay))
+	// markers contributed, overridden or removed by an upper layer: the outputs of the layered
+	// evaluation are the outputs of the merged tree given directly, and what the model selects from it
+	layered := core.Space{Name: "marker-set-by-upper-layer", N: nl * nl,
+		Desc: func(i int64) any { return map[string]any{"lower": lay[i/nl], "upper": lay[i%nl]} },
+		Run: func(c *core.Ctx, i int64) {
+			lo, up := lay[i/nl], lay[i%nl]
+			c.Eval()
+			c.Trans(3)
+			p, err := layerAPI(lo, up)
+			if err != nil {
+				c.Outcome("layer-rejected")
+				return
+			}
+			ds := docData(p)
+			if len(ds) != 1 {
+				c.Outcome("layer-not-one-document")
+				return
+			}
+			wit := core.Canon(lo) + " <- " + core.Canon(up)
+			got, gerr := p.OutputDocuments()
+			direct, derr := evalStream(ds)
+			c.Validated()
+			if (gerr == nil) != (derr == nil) || (gerr == nil && !core.Equal(got, direct)) {
+				c.Outcome("LAYERED-DIFFERS-FROM-DIRECT")
+				c.Fail("layered-equals-direct", "outputs-differ", wit, map[string]any{"merged": ds[0], "layered": got, "layered_error": errStr(gerr), "direct": direct, "direct_error": errStr(derr)})
+				return
+			}
+			c11Check(c, "refSelect/refHide-layered", ds)
+		}}
 	return &core.Plan{
-		Spaces: []core.Space{single, streams},
-		Rule:   "every tree with <= N nodes over keys {a, b, $output} and scalars {1, true, false} (so every map/list carries no marker, a true marker, a false marker, a non-bool marker or a marker with extra keys), and every 2-document stream of trees with <= 3 nodes; non-trivial = the tree contains a $output key",
+		Spaces: []core.Space{single, streams, layered},
+		Rule:   "every tree with <= N nodes over keys {a, b, $output} and scalars {1, true, false} (so every map/list carries no marker, a true marker, a false marker, a non-bool marker or a marker with extra keys), every 2-document stream of trees with <= 3 (thorough 4) nodes, and every lower/upper layer pair of trees with <= 3 (thorough 4) nodes (markers contributed, overridden or removed by the upper layer); non-trivial = the tree contains a $output key",
 		Assumptions: []string{"reference model ref.Outputs (select, hide, final) is the oracle; the relative order of a selected subtree and a selected descendant is compared as a multiset; a list carrying both markers is not judged"},
 		Bounds:      map[string]any{"nodes": n, "trees": len(trees)},
 	}
